@@ -24,8 +24,9 @@ TECHNIQUE = "executable RFC 9535 ABNF recognizer proved sound and complete in Co
 LEVEL = "proof"
 LEVEL_TEXT = ("Proved: C04_parser_sound - for every registry and range and every token list of the shape the lexer produces (one EOF, last; INDEX tokens are digits; '..' is followed by a name, '*' or '['), "
               "Parser.parse returns a query only if the typed token-level grammar derives the tokens for it (bracket structure, separators, slices, operator precedence, parentheses, typing, integer range); "
-              "C04_parser_exact - with C05_complete_tokens, exactly then. Also: the grammar recognizer used as oracle is sound and complete for the transcribed ABNF (in_rfc_sound, in_rfc_complete). "
-              "NOT proved (partial): the lexical layer - that the lexer's token list has that shape and that tokens plus the blank space between them spell a string of the ABNF; every generated string "
+              "C04_parser_exact - with C05_complete_tokens, exactly then; C04_tokens_wf - every token list the lexer returns has that shape (state-machine invariant; what the INDEX pattern can match is derived "
+              "from the backtracking matcher); C04_compile_sound_tokens - so whatever compile() accepts was tokenised into a list the grammar derives for the returned query. Also: the grammar recognizer used as oracle is sound and complete for the transcribed ABNF (in_rfc_sound, in_rfc_complete). "
+              "NOT proved (partial): the character level - that the tokens' texts plus the blank space skipped between them spell a string of the ABNF; every generated string "
               "outside the grammar must be rejected by the real compile().")
 LEVEL_NOTE = ("Partial: lexer -> ABNF is not proved; detection rests on the proved oracle run differentially plus the model correspondence. "
               "Trusted: Coq kernel, grammar transcriptions (Spec/Rfc9535Grammar.v, QT in Proofs/ParseComplete.v), extraction and driver.")
